@@ -267,7 +267,15 @@ fn glyf_bytes(t: &[G]) -> (Vec<u8>, Vec<u8>) {
                 } else {
                     let mut w = WriteBuffer::new();
                     CompositeGlyph::write(&mut w, composite_glyph(cs, *r)).unwrap();
+                    let at = glyf.len();
                     glyf.extend_from_slice(w.bytes());
+                    // any negative numberOfContours marks a composite (-1 is only the recommended value):
+                    // every third composite of a table carries another one
+                    let k = loca.len() / 4;
+                    if k % 3 == 2 {
+                        let nc: i16 = [-2i16, -3, -32768, -255][(k / 3) % 4];
+                        glyf[at..at + 2].copy_from_slice(&nc.to_be_bytes());
+                    }
                 }
             }
         }
@@ -1182,6 +1190,152 @@ fn gen_cff(rng: &mut Rng) -> String {
     format!("s|{}|{}|{}|{}|{}|{}|{}", ng, nl, sh(&glyphs), sh(&gs), sh(&ls), join(&ids), rng.below(2))
 }
 
+// ------------------------------------------------------------------------------------------------
+// q: CFF2 -> CFF charstring conversion.  Glyph 1 of a CFF2 fixture gets a synthesised charstring (operands at
+// the edges of every Type 2 number encoding, fixed-point operands, every path operator); the font is subset
+// to [0, 1] (which converts CFF2 to CFF) and the outline of the glyph is compared before and after.
+//   q|HEX   ->  src:<hash>|sub:<hash>       hash = outline event hash, or E<error>
+
+struct WithCff2<'a, P> {
+    inner: &'a P,
+    cff2: Vec<u8>,
+}
+impl<'a, P: FontTableProvider> FontTableProvider for WithCff2<'a, P> {
+    fn table_data(&self, t: u32) -> Result<Option<Cow<'_, [u8]>>, ParseError> {
+        if t == tag::CFF2 {
+            Ok(Some(Cow::Borrowed(&self.cff2)))
+        } else {
+            self.inner.table_data(t)
+        }
+    }
+    fn has_table(&self, t: u32) -> bool {
+        self.inner.has_table(t)
+    }
+    fn table_tags(&self) -> Option<Vec<u32>> {
+        self.inner.table_tags()
+    }
+}
+
+fn run_q(parts: &[&str]) -> String {
+    let cs = avh::prng::unhex(parts[1]);
+    let data = font_bytes("opentype/cff2/SourceSans3.abc.otf");
+    let fd = match ReadScope::new(&data).read::<FontData<'_>>() {
+        Ok(f) => f,
+        Err(_) => return "nofixture".to_string(),
+    };
+    let provider = match fd.table_provider(0) {
+        Ok(p) => p,
+        Err(_) => return "nofixture".to_string(),
+    };
+    let cff2_data = match provider.table_data(tag::CFF2) {
+        Ok(Some(d)) => d.into_owned(),
+        _ => return "nofixture".to_string(),
+    };
+    let mut cff2 = match ReadScope::new(&cff2_data).read::<CFF2<'_>>() {
+        Ok(c) => c,
+        Err(_) => return "nofixture".to_string(),
+    };
+    cff2.char_strings_index.replace(1, cs);
+    let mut out = WriteBuffer::new();
+    if CFF2::write(&mut out, cff2).is_err() {
+        return "nowrite".to_string();
+    }
+    let provider = WithCff2 { inner: &provider, cff2: out.into_inner() };
+    let cff2_data = provider.table_data(tag::CFF2).unwrap().unwrap().into_owned();
+    let cff2 = match ReadScope::new(&cff2_data).read::<CFF2<'_>>() {
+        Ok(c) => c,
+        Err(_) => return "noreread".to_string(),
+    };
+    let src = outline_hash(&mut CFF2Outlines { table: &cff2, tuple: None }, 1);
+    let sub = match allsorts::subset::subset(&provider, &[0, 1]) {
+        Err(e) => format!("S{:?}", e).replace(|c: char| !c.is_ascii_alphanumeric(), ""),
+        Ok(font) => {
+            let r = ReadScope::new(&font).read::<FontData<'_>>().ok().and_then(|f| {
+                let p = f.table_provider(0).ok()?;
+                let d = p.table_data(tag::CFF).ok()??.into_owned();
+                let mut cff = ReadScope::new(&d).read::<CFF<'_>>().ok()?;
+                Some(outline_hash(&mut cff, 1))
+            });
+            r.unwrap_or_else(|| "Eunreadable".to_string())
+        }
+    };
+    format!("src:{}|sub:{}", src, sub)
+}
+
+/// a CFF2 charstring over boundary operands: every number encoding the Type 2 format has
+fn gen_cff2_charstring(rng: &mut Rng) -> Vec<u8> {
+    const EDGES: &[i32] = &[
+        0, 1, -1, 107, 108, -107, -108, 363, 364, 1130, 1131, 1132, 1133, -1130, -1131, -1132, -1133, 1500, 32767, -32768,
+        30000, -30000, 255, 256, -255, -256,
+    ];
+    fn num(rng: &mut Rng, cs: &mut Vec<u8>) {
+        let v = if rng.chance(2, 3) { *rng.pick(EDGES) } else { rng.range(-1400, 1400) as i32 };
+        match rng.below(8) {
+            0 => {
+                // 16.16 fixed: whole or with a fraction
+                cs.push(255);
+                let raw = (v << 16).wrapping_add(if rng.chance(1, 2) { 0 } else { (rng.next() & 0xffff) as i32 });
+                cs.extend_from_slice(&raw.to_be_bytes());
+            }
+            1 | 2 => {
+                cs.push(28);
+                cs.extend_from_slice(&(v as i16).to_be_bytes());
+            }
+            _ => {
+                // the shortest form
+                if (-107..=107).contains(&v) {
+                    cs.push((v + 139) as u8);
+                } else if (108..=1131).contains(&v) {
+                    let w = v - 108;
+                    cs.push((w >> 8) as u8 + 247);
+                    cs.push(w as u8);
+                } else if (-1131..=-108).contains(&v) {
+                    let w = -v - 108;
+                    cs.push((w >> 8) as u8 + 251);
+                    cs.push(w as u8);
+                } else {
+                    cs.push(28);
+                    cs.extend_from_slice(&(v as i16).to_be_bytes());
+                }
+            }
+        }
+    }
+    let mut cs = vec![];
+    num(rng, &mut cs);
+    num(rng, &mut cs);
+    cs.push(21); // rmoveto
+    for _ in 0..1 + rng.below(5) {
+        match rng.below(5) {
+            0 => {
+                num(rng, &mut cs);
+                cs.push(6); // hlineto
+            }
+            1 => {
+                num(rng, &mut cs);
+                cs.push(7); // vlineto
+            }
+            2 => {
+                for _ in 0..6 {
+                    num(rng, &mut cs);
+                }
+                cs.push(8); // rrcurveto
+            }
+            3 => {
+                num(rng, &mut cs);
+                num(rng, &mut cs);
+                cs.push(21); // another contour
+            }
+            _ => {
+                for _ in 0..2 * (1 + rng.below(3)) {
+                    num(rng, &mut cs);
+                }
+                cs.push(5); // rlineto
+            }
+        }
+    }
+    cs
+}
+
 pub fn run(input: &str) -> String {
     let parts: Vec<&str> = input.split('|').collect();
     if std::env::var("C07_DEBUG").is_ok() {
@@ -1194,6 +1348,7 @@ pub fn run(input: &str) -> String {
         "f" if parts.len() >= 3 => run_f(&parts),
         "c" if parts.len() >= 4 => run_c(&parts),
         "s" if parts.len() >= 7 => run_s(&parts),
+        "q" if parts.len() >= 2 => run_q(&parts),
         _ => "badinput".to_string(),
     }));
     match r {
@@ -1332,7 +1487,8 @@ pub fn gen(rng: &mut Rng) -> String {
             let (nhm, hm, lsbs) = gen_hm(rng, t.len());
             format!("t|{}|{}|{}|{}|{}|{}", show_table(&t), nhm, show_hm(&hm), join(&lsbs), join(&ids), avh::build_mode())
         }
-        86..=89 => gen_cff(rng),
+        86..=87 => gen_cff(rng),
+        88..=89 => format!("q|{}", avh::prng::hex(&gen_cff2_charstring(rng))),
         90..=94 => {
             let name = *rng.pick(CFF_FONTS);
             let data = font_bytes(name);
